@@ -23,12 +23,27 @@ def _is_nan(x) -> bool:
     return isinstance(x, float) and math.isnan(x)
 
 
+class Index(list):
+    """Row labels: a list that can be filtered by a boolean series and turned into a list."""
+
+    def tolist(self):
+        return list(self)
+
+    def __getitem__(self, key):
+        if isinstance(key, Ser):
+            if list(key.index) != list(self):
+                raise Unsupported("index filtered by a foreign mask")
+            return Index(l for l, v in zip(self, key.values) if v)
+        out = list.__getitem__(self, key)
+        return Index(out) if isinstance(key, slice) else out
+
+
 class Ser:
     _absint_elementwise = True
 
     def __init__(self, values: Sequence[Any], index: Sequence[Any]):
         self.values = list(values)
-        self.index = list(index)
+        self.index = Index(index)
         if len(self.values) != len(self.index):
             raise Unsupported("series length mismatch")
 
@@ -104,6 +119,16 @@ class Ser:
     def __len__(self):
         return len(self.values)
 
+    def __getitem__(self, key):
+        if isinstance(key, Ser):
+            if key.index != self.index or not all(isinstance(v, bool) for v in key.values):
+                raise Unsupported("series filtered by a foreign or non-boolean mask")
+            keep = [n for n, v in enumerate(key.values) if v]
+            return Ser([self.values[n] for n in keep], [self.index[n] for n in keep])
+        if key in self.index:
+            return self.values[self.index.index(key)]
+        raise KeyError(key)
+
     def abs(self):
         return Ser([abs(a) for a in self.values], self.index)
 
@@ -136,7 +161,7 @@ class Frame:
     _absint_elementwise = True
 
     def __init__(self, cols: Dict[str, Sequence[Any]], index: Sequence[Any]):
-        self.index = list(index)
+        self.index = Index(index)
         self.cols: Dict[str, List[Any]] = {k: list(v) for k, v in cols.items()}
         for k, v in self.cols.items():
             if len(v) != len(self.index):
@@ -226,6 +251,16 @@ class Frame:
 
     def abs(self):
         return self._map(abs)
+
+    def max(self, axis=0):
+        if axis not in (1, "columns"):
+            raise Unsupported("frame.max along the index")
+        return Ser([max(self.cols[k][n] for k in self.cols) for n in range(len(self.index))], self.index)
+
+    def min(self, axis=0):
+        if axis not in (1, "columns"):
+            raise Unsupported("frame.min along the index")
+        return Ser([min(self.cols[k][n] for k in self.cols) for n in range(len(self.index))], self.index)
 
     def _cmp(self, o, fn):
         if isinstance(o, (Ser, Frame)):
